@@ -10,7 +10,9 @@ Correspondence on the REAL code, in five families:
  (c) ipv4 / ipv6 / mac / uuid / iso8601 vs ipaddress / uuid / datetime on generated well-formed and near-miss strings
      (correspondence ONLY: those modules are not modelled);
  (d) QuotedString over the parameter grid x all contents up to length n: model (Model/Quoted.v) vs implementation,
-     pattern construction compared structurally, and the round-trip oracle on the implementation;
+     pattern construction compared structurally, and the round-trip oracle on the implementation whose scope is, per
+     configuration, the hypothesis of the Coq round-trip theorem (plain_hyp / escq_hyp / both_hyp / roundtrip_hyp,
+     transcribed in py_scope and compared with Model.Quoted.qs_scope on every model case);
  (e) nested_expr / DelimitedList / counted_array on enumerated inputs vs model and vs the property oracle.
 Known defects of the unchanged tree are reported under stable class keys (known_findings.txt)."""
 import itertools, math, re, sys
@@ -507,16 +509,69 @@ def py_escape(eq, esc, escq, cws, c):
     return c
 
 
+def no_newline(c):
+    return not ("\n" in c or "\r" in c)
+
+
 def roundtrip_hyp(eq, esc, ml, cws, c):
-    return (esc != eq[0] and esc != "\n" and eq[0] != "\n" and (ml or not ("\n" in c or "\r" in c))
+    """Model/Quoted.v roundtrip_hyp (quotes of the grid are never empty)"""
+    return (esc != eq[0] and esc != "\n" and eq[0] != "\n" and (ml or no_newline(c))
             and not (cws and esc == BSL and eq[0] in SPECIAL_AFTER_BS))
 
 
-def make_qs(cfg):
-    import pyparsing as pp
+def scan_neutral(unq, cws, inner):
+    """Model/Quoted.v scan_neutral"""
+    return not (unq and cws) or BSL not in inner
+
+
+def plain_hyp(cfg, c):
+    """Model/Quoted.v plain_hyp: hypotheses of C18_quoted_roundtrip_plain"""
     q, eq, esc, escq, ml, unq, cws = cfg
-    return pp.QuotedString(q, esc_char=esc, esc_quote=escq, multiline=ml, end_quote_char=eq,
-                           convert_whitespace_escapes=cws, unquote_results=unq).leave_whitespace()
+    return bool(q) and bool(eq) and (c + eq).find(eq) == len(c) and (ml or no_newline(c)) and scan_neutral(unq, cws, c)
+
+
+def escq_hyp(cfg, c):
+    """Model/Quoted.v escq_hyp: hypotheses of C18_quoted_roundtrip_escquote_partial"""
+    q, eq, esc, escq, ml, unq, cws = cfg
+    return (bool(q) and len(eq) == 1 and escq.startswith(eq) and len(escq) > 1 and (ml or no_newline(c))
+            and scan_neutral(unq, cws, py_escape(eq, esc, escq, cws, c)))
+
+
+def both_hyp(cfg, c):
+    """Model/Quoted.v both_hyp: hypotheses of C18_quoted_roundtrip_both_partial"""
+    q, eq, esc, escq, ml, unq, cws = cfg
+    return bool(q) and roundtrip_hyp(eq, esc, ml, cws, c) and len(escq) > 0 and escq not in c and esc not in escq
+
+
+SCOPE_NAMES = {0: "outside", 1: "esc_char", 2: "plain", 3: "escquote", 4: "both"}
+
+
+def py_scope(cfg, c):
+    """Model/Quoted.v qs_scope: which round-trip theorem covers the case (0 = none)"""
+    q, eq, esc, escq, ml, unq, cws = cfg
+    if esc is not None and not escq:
+        return 1 if (bool(q) and roundtrip_hyp(eq, esc, ml, cws, c)) else 0
+    if esc is None and not escq:
+        return 2 if plain_hyp(cfg, c) else 0
+    if esc is None:
+        return 3 if escq_hyp(cfg, c) else 0
+    return 4 if both_hyp(cfg, c) else 0
+
+
+_QS_CACHE = {}
+
+
+def make_qs(cfg):
+    """the real expression for a configuration (one object per configuration: parsing does not change it)"""
+    import pyparsing as pp
+    cfg = tuple(cfg)
+    if cfg not in _QS_CACHE:
+        if len(_QS_CACHE) > 4096:
+            _QS_CACHE.clear()
+        q, eq, esc, escq, ml, unq, cws = cfg
+        _QS_CACHE[cfg] = pp.QuotedString(q, esc_char=esc, esc_quote=escq, multiline=ml, end_quote_char=eq,
+                                         convert_whitespace_escapes=cws, unquote_results=unq).leave_whitespace()
+    return _QS_CACHE[cfg]
 
 
 def qs_run(qs, src):
@@ -537,17 +592,14 @@ def quoted_oracle(cfg, c):
     if got == want:
         return None
     tag = "q=%r,e=%r,esc=%r,escq=%r,ml=%d,unq=%d,cws=%d" % (q, eq, esc, escq, ml, unq, cws)
-    if esc is not None and escq is None and roundtrip_hyp(eq, esc, ml, cws, c):
-        return ("quoted:roundtrip:%s:%r" % (tag, c), "QuotedString(%s): %r -> %r parses to %r" % (tag, c, src, got))
+    # the scope of each clause is exactly the hypothesis of the corresponding Coq theorem (py_scope == Model qs_scope)
+    sc = py_scope(cfg, c)
+    if sc:
+        clause = {1: "roundtrip", 2: "roundtrip-plain", 3: "roundtrip-escq", 4: "roundtrip-both"}[sc]
+        return ("quoted:%s:%s:%r" % (clause, tag, c), "QuotedString(%s): %r -> %r parses to %r" % (tag, c, src, got))
     if esc is not None and escq is not None and unq and escq in c and roundtrip_hyp(eq, esc, ml, cws, c):
         return ("quoted:escquote-after-unescape", "F-18a QuotedString(%s): %r -> %r parses to %r" % (tag, c, src, got))
-    if esc is not None and escq is not None and escq not in c and roundtrip_hyp(eq, esc, ml, cws, c) \
-            and not escq.startswith(esc) and eq[0] not in escq[1:] and esc not in escq:
-        return ("quoted:roundtrip-escq:%s:%r" % (tag, c), "QuotedString(%s): %r -> %r parses to %r" % (tag, c, src, got))
-    if esc is None and escq is None and (c + eq).find(eq) == len(c) and (ml or not ("\n" in c or "\r" in c)) and not (cws and unq and BSL in c):
-        # no escaping configured: any content in which the end quote does not occur (nor straddles the closing one) round-trips
-        return ("quoted:roundtrip-plain:%s:%r" % (tag, c), "QuotedString(%s): %r -> %r parses to %r" % (tag, c, src, got))
-    if esc is None and escq is None and cws and unq and BSL in c and eq[0] not in c and (ml or not ("\n" in c or "\r" in c)):
+    if esc is None and escq is None and cws and unq and BSL in c and eq[0] not in c and (ml or no_newline(c)):
         return ("quoted:ws-escape-no-esc-char", "F-18b QuotedString(%s): %r -> %r parses to %r" % (tag, c, src, got))
     return "outside"
 
@@ -556,7 +608,8 @@ def quoted_grid():
     grid = []
     for (q, eq) in [('"', '"'), ("[", "]"), ("<<", ">>"), (SQ3, SQ3), ("$", "$$"), ("t", "t"), ("<!--", "-->"), ("[[", "]]>"), ("a", "aab")]:
         for esc in [None, BSL, "^"]:
-            for escq in [None, eq * 2, "$$"]:
+            # eq + "x": a second esc_quote inside the hypotheses of C18_quoted_roundtrip_escquote_partial (esc_quote-only configurations)
+            for escq in [None, eq * 2, "$$"] + ([eq + "x"] if len(eq) == 1 and esc is None else []):
                 for ml in [False, True]:
                     for cws in [True, False]:
                         for unq in [True, False]:
@@ -572,6 +625,7 @@ def part_d(ctx, info):
         alpha = "".join(sorted(set(q + eq + (esc or "") + (escq or "") + "a \nt" + BSL)))
         for c in all_strings(alpha, n):
             bad = quoted_oracle(cfg, c)
+            ctx.stat("quoted_scope_" + SCOPE_NAMES[py_scope(cfg, c)])     # cases inside each theorem's hypotheses
             if bad == "outside":
                 ctx.stat("quoted_outside_scope")
             elif bad:
@@ -596,7 +650,7 @@ def part_d(ctx, info):
         alpha = "".join(sorted(set(q + eq + (esc or "") + (escq or "") + "a\nt3" + BSL)))
         structural = len(eq) <= 2
         exprs.append("re_eqb (qs_pattern %s) %s" % (cfg_coq(*cfg), regex_ast.to_coq(qs.pattern, qs.re_flags)) if structural else "true")
-        exprs.append("let cfg := %s in map (fun c => (qs_parse cfg (quoted_source cfg c) 0, qs_parse cfg c 0)) (strings_upto %s %d)"
+        exprs.append("let cfg := %s in map (fun c => (qs_parse cfg (quoted_source cfg c) 0, qs_parse cfg c 0, qs_scope cfg c)) (strings_upto %s %d)"
                      % (cfg_coq(*cfg), vlib.coq_str(alpha), m))
         meta.append((cfg, qs, alpha))
     try:
@@ -604,12 +658,23 @@ def part_d(ctx, info):
     except Exception as e:
         ctx.broken("correspondence:model-eval quoted (%s)" % str(e)[:300])
         return
-    nbad = 0
+    nbad = nscope = 0
     for k, (cfg, qs, alpha) in enumerate(meta):
         q, eq, esc, escq, ml, unq, cws = cfg
         if res[2 * k] is not True:
             ctx.broken("correspondence:QuotedString pattern construction differs for %r: %r" % (cfg, qs.pattern))
-        for c, (m1, m2) in zip(all_strings(alpha, m), res[2 * k + 1]):
+        for c, (m1, m2, msc) in zip(all_strings(alpha, m), res[2 * k + 1]):
+            # the Coq hypotheses (qs_scope) and the oracle's scope conditions (py_scope) decide the same set of cases
+            psc = py_scope(cfg, c)
+            ctx.case(("qsscope", cfg, c), nontrivial=psc != 0, agreed=psc == msc)
+            ctx.stat("quoted_model_scope_" + SCOPE_NAMES[psc])
+            if psc != msc and nscope < 3:
+                nscope += 1
+                ctx.broken("correspondence:QuotedString theorem scope: Coq qs_scope=%r, Python py_scope=%r for %r content %r" % (msc, psc, cfg, c))
+            # inside a theorem's hypotheses the model returns the content (the theorem, re-observed on the executable model)
+            if msc and m1 != ("Some", (len(q + py_escape(eq, esc, escq, cws, c) + eq),
+                                       [ord(ch) for ch in (c if unq else q + py_escape(eq, esc, escq, cws, c) + eq)])):
+                ctx.broken("correspondence:QuotedString model contradicts its round-trip theorem for %r content %r: %r" % (cfg, c, m1))
             for src, mm in ((q + py_escape(eq, esc, escq, cws, c) + eq, m1), (c, m2)):
                 impl = qs_run(qs, src)
                 mod = None if mm == "None" else (mm[1][0], vlib.from_coq_str(mm[1][1]))
@@ -932,7 +997,9 @@ def search(ctx, reasons):
     if found():
         return
     for cfg in quoted_grid() + [(q, e, esc, None, ml, True, cws) for (q, e) in [("(", ")"), ("$", "$"), ("{{", "}}"), ("ab", "ba"), ("x", "u")]
-                                for esc in (BSL, "^", "a") for ml in (False, True) for cws in (False, True)]:
+                                for esc in (BSL, "^", "a") for ml in (False, True) for cws in (False, True)] \
+            + [(q, e, None, escq, ml, unq, False) for (q, e) in [("(", ")"), ("'", "'"), ("{{", "}}"), ("ab", "ba"), ("<!--", "--->")]
+               for escq in ([None] + ([e * 2, e + "y"] if len(e) == 1 else [])) for ml in (False, True) for unq in (True, False)]:
         q, eq, esc, escq, ml, unq, cws = cfg
         alpha = "".join(sorted(set(q + eq + (esc or "") + (escq or "") + "a \nt3" + BSL)))
         for c in all_strings(alpha, 4):
